@@ -56,7 +56,9 @@ prop("C03",
           "9 video clocks incl. 1001-based; addressing Number/Time/Timeline-Number; start, startNumber; live index n in the regimes first / wrap / "
           "many wraps / year-2026 / year-2090). Oracle: independent frame model aS=ceilF(start_n), aE=ceilF(end_n), frame at T is VoD frame "
           "(T-ceilF(wL))/F or the last VoD frame when past the VoD audio; payload comparison with the VoD frames; n+1 abuts; Number==Time bytes; "
-          "the MPD's audio SegmentTimeline equals the model for every listed entry. Non-trivial = segment adjacent to a wrap, with padding, or "
+          "the MPD's audio SegmentTimeline equals the model for every listed entry. Half of the generated layouts carry a second audio adaptation "
+          "set in the other codec (AC-3 next to AAC or vice versa: another frame duration), either of which may be the one under test. "
+          "Non-trivial = segment adjacent to a wrap, with padding, or "
           "whose frames span two VoD audio segments; distinct by hash of the case.",
      quick=dict(shards=2, timeout=300), thorough=dict(shards=16, timeout=1500, pct=350), assumptions=COMMON)
 
@@ -79,7 +81,7 @@ prop("C05",
           "availability breakpoints, window-start crossings, across wraps and after the stop time. Relational oracle over the fetched MPDs: "
           "first/last listed never move back, live edge = newest ended segment at every instant, publishTime <= now, non-decreasing, equal to "
           "the availability instant of the newest listed segment (ms), equal publishTime => byte-identical documents, plain $Number$ single "
-          "period => all documents identical, after stop (also with periods) => static with duration stop-start, unchanging, publishTime not "
+          "period => all documents identical (also with UTCTiming options such as utc_direct), after stop (also with periods) => static with duration stop-start, unchanging, publishTime not "
           "lower than before the stop. Non-trivial = a set whose "
           "instants are separated by >= 1 breakpoint (live edge differs); distinct by hash of the case.",
      quick=dict(shards=2, timeout=400), thorough=dict(shards=16, timeout=1500, pct=400),
@@ -105,7 +107,7 @@ prop("C18",
           "bytes, truncation point, corrupted size field 0..7 / +-delta / 2^16..2^24), a read partition (1 byte at a time, small, mixed, all at "
           "once; last data with or without io.EOF), an initial buffer 0..64 KiB, and optionally a read error position or a failing callback. "
           "Oracle: a model parser written from the statement walks the boxes of the whole slice: concatenation = input, one callback per "
-          "complete mdat, trailing bytes at EOF, init flag = top-level moov header seen, Start = chunk offset; injected errors returned (also a read error that is reported once, after which the reader would go on); "
+          "complete mdat, trailing bytes at EOF, init flag = top-level moov header seen, Start = chunk offset; injected errors returned (also a read error that is reported once, after which the reader would go on; that comes together with the last bytes before it; that wraps io.EOF); "
           "termination within 20 s; bounded buffer growth for well-formed streams. Non-trivial = stream with >= 2 callbacks read with a read "
           "boundary inside a box header; distinct by hash of the case.",
      quick=dict(shards=2, timeout=300), thorough=dict(shards=16, timeout=1500, pct=600), fuzz=dict(target="FuzzC18", seconds=150, workers=16),
@@ -117,7 +119,7 @@ prop("C14",
           "by the segment duration, rsq 0..5, code 400..599, rep filter = own id / other id / * / none), asset bundled or generated, video or "
           "audio representation, addressing Number/Time/Timeline-Number, start, startNumber; all segments over >= 4 cycles (also far from the "
           "start) are requested: exactly the code for the rsq-th segment starting in its cycle, otherwise a response byte-identical to the one "
-          "without the parameter. (2) traffic: 1-3 BaseURL patterns of up to 4 u/d/s/h intervals of 1-20 s: StateAt vs an own cyclic expansion "
+          "without the parameter. (2) traffic (2 s, 8 s and the flat-layout bbb asset): 1-3 BaseURL patterns of up to 4 u/d/s/h intervals of 1-20 s: StateAt vs an own cyclic expansion "
           "for every second of 3 cycles (near 0 and near 1.7e9), MPD offers one BaseURL per pattern, HTTP: up = plain answer, down = 404 "
           "(slow/hang sampled in the thorough tier with a one-sided elapsed-time bound). A third of the status-code cases carries an "
           "availabilityTimeOffset from a quarter of a segment to more than two segments (the schedule is counted on the media timeline and must not move); a third of the 2/6/8 s cases is requested in chunked low-latency mode. "
@@ -165,7 +167,7 @@ prop("C10",
           "tenc.default_KID and scheme of the served init, key for that kid from the licence endpoint (ClearKey) or from the CPIX file parsed "
           "independently, decryption of the served segment (every fragment) and sample-wise comparison with the clear segment of the same "
           "URL and instant; ciphertext must differ from the clear payload. Plus: an asset built from livesim2's own encrypted output is "
-          "refused with eccp_cenc/eccp_cbcs (MPD and segments, Number and Time). Besides the repository's two CPIX packages the server of the "
+          "refused with eccp_cenc/eccp_cbcs (MPD and segments, Number and Time). Chunked cases use ato 3/4 + chunkdur 1/4 of the segment, or chunkdur alone, or a tiny offset. Besides the repository's two CPIX packages the server of the "
           "bundled assets is also run with three packages derived from the one-key test package (scheme cenc; cbcs and cenc without the "
           "optional explicitIV: such a package may be refused, but whatever is served must decrypt); generated layouts may declare avc3 video. "
           "Non-trivial = a segment with protected payload that decrypted "
@@ -181,7 +183,7 @@ prop("C09",
           "segment end (paced, real time), or after the end). A recording ResponseWriter timestamps every flush. Oracle: body parses into the "
           "same samples (times, durations, flags, payload) as the whole-segment response, styp on the first chunk only, chunks contiguous "
           "with the segment's number, no chunk longer than segment duration - ato + one sample, with DRM a senc box with one entry per sample "
-          "in every chunk, one flush per chunk, no chunk flushed before "
+          "in every chunk, one flush per chunk (chunkdur_ written after or before ato_), no chunk flushed before "
           "its media end minus 2 ms (one-sided), request before the advertised availability time -> 425, and (unpaced cases) an extra request "
           "0..1500 ms after the advertised availability time, abandoned at its first bytes, is admitted (200). Non-trivial = a response with >= 2 "
           "chunks (paced: of which >= 1 had to wait); distinct by hash of the case.",
@@ -241,6 +243,7 @@ prop("C17",
           "for every track with equal (t,d), every track represented, newest listed number never decreases, buffers/counters/storage within "
           "the window implied by tsbd, and after the catch-up the newest listed number is the last one. The thorough tier adds all 70 "
           "interleavings of 2 tracks x 4 segments. A quarter of the cases uploads every 2 s video segment as two chunks whose tfhd default sample durations differ. Renumbered channels (TestC17Renumbered): decode time = (number + K) x duration, K in {1,3,1000}, "
+          "or with all times a constant off the duration grid (numbers as uploaded or shifted; the receiver moves the times onto the grid), "
           "video + audio (+ second video) uploaded in order, audio up to 1/8 segment before or after the video grid: every listed number is stored "
           "with the listed (t,d), is one of the uploaded segments, is listed for every track, and denotes intervals less than half a segment apart "
           "on all tracks. Non-trivial = a schedule where two tracks are >= 2 segments apart, or with a gap/duplicate (renumbered: >= 2 numbers judged).",
@@ -269,7 +272,7 @@ prop("C19",
      assumptions=COMMON + ["interleavings are sampled by the Go scheduler (barriers and repetition raise the odds); absence of races is not established"])
 
 prop("C16",
-     rule="rapid draws 1-3 concurrent step-mode sessions on one server (asset bundled or generated uniform layout; $Number$ or SegmentTimeline-$Time$ "
+     rule="rapid draws 1-3 concurrent step-mode sessions on one server (asset bundled or generated uniform layout; $Number$, SegmentTimeline-$Time$ or SegmentTimeline-$Number$ "
           "URL; optional generated stpp/wvtt subtitles; Streams() or per-segment URLs; with/without credentials; optional duration of 1-4 "
           "segments; testNowMS near 1e4..1.7e12; normal or slow receiver) and a history of 3-14 REST operations (step, info, delete) over the "
           "sessions. Each session has its own recording httptest receiver. After every operation the request log of every session is "
@@ -285,11 +288,12 @@ prop("C16",
           "receiver answering at once or after 40/130/250 % of a segment duration (the sender falls behind and catches up): exactly duration/segDur "
           "media segments per representation arrive (nothing more within four further segment durations), consecutive, starting between the live edge at "
           "creation and at first arrival, none before its availability time, lmsg on the last one only, bodies as served. "
+          "Receivers may also be slow on the init segments (150/300 % of a segment): the first media number then lies after the live edge of the moment the last init was answered. "
           "Concurrent creation (TestC16ConcurrentCreate): 2-8 sessions with receivers of their own are created at the same instant over the REST API: "
           "distinct ids, every receiver gets its init segments and exactly one segment per representation (the first after the live edge) for one step. "
           "Non-trivial = a history with >= 3 effective "
           "steps on a session with >= 2 representations (wall-clock: >= 2 segments judged).",
-     quick=dict(shards=2, timeout=500), thorough=dict(shards=16, timeout=1500, pct=250), crash_is_violation=True,
+     quick=dict(shards=2, timeout=500), thorough=dict(shards=16, timeout=2400, pct=250), crash_is_violation=True,
      assumptions=COMMON + ["step mode (testNowMS) only: wall-clock pacing of the session loop is not exercised; chunked sessions are exercised with 1.0-1.6 s segments (each step is produced in real time)",
                            "a session with a duration is drawn only for assets whose representations share one segment grid (DESIGN O7)"])
 
